@@ -140,6 +140,8 @@ func init() {
 		// governance: interest parameters
 		sp := w.App.StablestakeKeeper.GetParams(w.ReadCtx())
 		sp.InterestRateMax, sp.InterestRateMin, sp.InterestRate, sp.InterestRateIncrease = chain.Dec("0.9"), chain.Dec("0.4"), chain.Dec("0.5"), chain.Dec("0.05")
+		// the interest-rate epoch gets longer than one block in two instances of three
+		sp.EpochLength = []int64{1, 5, 3}[c.Job.Index%3]
 		if w.GovExec("interest", &sstypes.MsgUpdateParams{Authority: w.Gov, Params: &sp}) {
 			c.Ev("interest_params_changed")
 		}
